@@ -4,7 +4,7 @@
    `check_sound` proves, with the logic of StackLogic.v, that an expression that checks never drives
    the real actions (Actions.exec_action) into a crash site.  The checker is evaluated on the grammar
    regenerated from jsonpath.peg (StackRules.v). *)
-From JP Require Import Peg Text Tree Actions Eval WF PegFacts ParseFacts ErrPos StackLogic TreeWf.
+From JP Require Import Peg Text Tree Actions Eval WF AccDefs PegFacts ParseFacts ErrPos StackLogic TreeWf.
 From Coq Require Import Lia.
 Open Scope list_scope.
 Open Scope nat_scope.
@@ -18,13 +18,13 @@ Definition scalarb (v : value) : bool :=
   match v with VNum _ | VBool _ | VStr _ | VNull => true | _ => false end.
 
 (* a node on the parameter stack: well formed, value-group flags consistent with the node kinds *)
-Definition nwf (n : node) : bool := wf_node n && vgc n.
+Definition nwf (n : node) : bool := wf_node n && vgc n && acc_clean n.
 (* a comparison operand: the literal flag agrees with the kind of operand, paths are single-valued *)
 Definition cpwf (p : cparam) : bool :=
   match p with
   | CP (PqLit v) lit => lit && scalarb v
-  | CP (PqRoot n) lit => lit && wf_node n && single_chain n
-  | CP (PqCur n) lit => negb lit && wf_node n && single_chain n
+  | CP (PqRoot n) lit => lit && wf_node n && single_chain n && all_false n
+  | CP (PqCur n) lit => negb lit && wf_node n && single_chain n && all_false n
   end.
 Definition cp_ok (p : cparam) : bool := match p with CP (PqLit v) _ => scalarb v | _ => true end.
 Definition rawcmp (l r : cparam) : bool := cpwf l && cpwf r && Nat.leb (rank l) (rank r).
@@ -37,7 +37,7 @@ Definition rawq (q : query) : bool :=
   | _ => false
   end.
 Definition pqwf (p : pquery) : bool :=
-  match p with PqCur n | PqRoot n => nwf n && hvg n | PqLit _ => false end.
+  match p with PqCur n | PqRoot n => nwf n && hvg n && all_false n | PqLit _ => false end.
 
 Definition has_ty (x : item) (t : ity) : bool :=
   match t, x with
@@ -49,8 +49,8 @@ Definition has_ty (x : item) (t : ity) : bool :=
   | TIdx, IIdx i => idx_okb i
   | TSubs, IIdx i => idx_okb i
   | TSubs, ISub s => sub_okb s
-  | TQuery, IQuery q => wf_query q
-  | TQueryRaw, IQuery q => rawq q
+  | TQuery, IQuery q => wf_query q && all_false_q q
+  | TQueryRaw, IQuery q => rawq q && all_false_q q
   | TPQ, IPQ p => pqwf p
   | TBool, IBool _ => true
   | TLit, INum _ => true
@@ -77,7 +77,7 @@ Proof.
   - apply andb_true_iff in H. apply H.
   - destruct n as [k bb nx]. destruct k; try discriminate. exact H.
   - exact H.
-  - unfold rawq. rewrite H. reflexivity.
+  - apply andb_true_iff in H. destruct H as [H1 H2]. unfold rawq. rewrite H1, H2. reflexivity.
 Qed.
 
 Definition lub (a b : ity) : option ity :=
@@ -146,6 +146,12 @@ Proof.
   - rewrite andb_true_r. reflexivity.
   - rewrite wf_nodes_snoc, andb_assoc. reflexivity.
 Qed.
+Fixpoint acc_clean_ids_snoc (ids : nodes) (x : node) : acc_clean_ids (nodes_snoc ids x) = acc_clean_ids ids && acc_clean x.
+Proof.
+  destruct ids as [|i r]; cbn [nodes_snoc acc_clean_ids].
+  - rewrite andb_true_r. reflexivity.
+  - rewrite acc_clean_ids_snoc, andb_assoc. reflexivity.
+Qed.
 Lemma atoi_in64 cps z : atoi cps = Some z -> in64b z = true.
 Proof.
   unfold atoi. destruct (match cps with c :: r => _ | [] => _ end) as [neg ds].
@@ -197,15 +203,25 @@ Proof. intros Hl Hr Hk. unfold rawq, rawcmp. rewrite Hl, Hr. apply Nat.leb_le in
 Lemma rawq_not_cmp l r c : cpwf l = true -> cpwf r = true -> rank l <= rank r -> rawq (QNot (QCmp l r c)) = true.
 Proof. intros Hl Hr Hk. unfold rawq, rawcmp. rewrite Hl, Hr. apply Nat.leb_le in Hk. rewrite Hk. apply orb_true_r. Qed.
 
+Lemma cpwf_all_false p : cpwf p = true -> all_false_p (match p with CP q _ => q end) = true.
+Proof.
+  destruct p as [q lit]. destruct q as [v|n|n]; cbn [cpwf all_false_p]; intros H; [reflexivity| |];
+    apply andb_true_iff in H; apply H.
+Qed.
+Lemma all_false_cmp l r c : cpwf l = true -> cpwf r = true -> all_false_q (QCmp l r c) = true.
+Proof.
+  intros Hl Hr. pose proof (cpwf_all_false l Hl) as A. pose proof (cpwf_all_false r Hr) as B.
+  destruct l as [lp ll], r as [rp rl]. cbn [all_false_q]. rewrite A, B. reflexivity.
+Qed.
 Lemma compare_ord_raw c l r st : cpwf l = true -> cpwf r = true ->
-  exists q, push_compare_ord c l r st = push (IQuery q) st /\ rawq q = true.
+  exists q, push_compare_ord c l r st = push (IQuery q) st /\ rawq q && all_false_q q = true.
 Proof.
   intros Hl Hr. unfold push_compare_ord, swap_required. destruct (Nat.ltb (rank r) (rank l)) eqn:E.
-  - apply Nat.ltb_lt in E. eexists. split; [reflexivity|]. apply rawq_cmp; [assumption|assumption|lia].
-  - apply Nat.ltb_ge in E. eexists. split; [reflexivity|]. apply rawq_cmp; assumption.
+  - apply Nat.ltb_lt in E. eexists. split; [reflexivity|]. rewrite rawq_cmp, all_false_cmp; [reflexivity| | | | |]; try assumption. lia.
+  - apply Nat.ltb_ge in E. eexists. split; [reflexivity|]. rewrite rawq_cmp, all_false_cmp; [reflexivity| | | | |]; assumption.
 Qed.
 Lemma compare_eq_raw l r st : cpwf l = true -> cpwf r = true ->
-  exists q, push_compare_eq l r st = push (IQuery q) st /\ rawq q = true /\ rawq (QNot q) = true.
+  exists q, push_compare_eq l r st = push (IQuery q) st /\ rawq q && all_false_q q = true /\ rawq (QNot q) && all_false_q (QNot q) = true.
 Proof.
   intros Hl Hr. unfold push_compare_eq, swap_required.
   assert (Hgen : forall a b, cpwf a = true -> cpwf b = true -> rank a <= rank b ->
@@ -219,12 +235,16 @@ Proof.
                           | _ => st
                           end
                       | _ => push (IQuery (QCmp a b CDeepEq)) st
-                      end = push (IQuery q) st /\ rawq q = true /\ rawq (QNot q) = true).
+                      end = push (IQuery q) st /\ rawq q && all_false_q q = true /\ rawq (QNot q) && all_false_q (QNot q) = true).
   { intros a b Ha Hb Hk. destruct b as [bp bl] eqn:Eb. destruct bp as [v|n|n].
     - cbn [cpwf] in Hb. apply andb_true_iff in Hb. destruct Hb as [Hb1 Hb2].
-      destruct v; try discriminate Hb2; (eexists; split; [reflexivity|split; [apply rawq_cmp|apply rawq_not_cmp]; try assumption; cbn [cpwf]; rewrite Hb1; reflexivity]).
-    - eexists. split; [reflexivity|split; [apply rawq_cmp|apply rawq_not_cmp]; assumption].
-    - eexists. split; [reflexivity|split; [apply rawq_cmp|apply rawq_not_cmp]; assumption]. }
+      assert (Hb' : cpwf (CP (PqLit v) bl) = true) by (cbn [cpwf]; rewrite Hb1, Hb2; reflexivity).
+      destruct v; try discriminate Hb2;
+        (eexists; split; [reflexivity|]; cbn [all_false_q]; fold (all_false_q (QCmp a (CP (PqLit VNull) bl) CDeepEq));
+         split; [rewrite rawq_cmp by assumption|rewrite rawq_not_cmp by assumption]; cbn [andb];
+         apply (all_false_cmp a _ CDeepEq Ha Hb')).
+    - eexists. split; [reflexivity|]. cbn [all_false_q]. split; [rewrite rawq_cmp by assumption|rewrite rawq_not_cmp by assumption]; cbn [andb]; apply (all_false_cmp a _ CDeepEq Ha Hb).
+    - eexists. split; [reflexivity|]. cbn [all_false_q]. split; [rewrite rawq_cmp by assumption|rewrite rawq_not_cmp by assumption]; cbn [andb]; apply (all_false_cmp a _ CDeepEq Ha Hb). }
   destruct (Nat.ltb (rank r) (rank l)) eqn:E.
   - apply Nat.ltb_lt in E. apply Hgen; [assumption|assumption|lia].
   - apply Nat.ltb_ge in E. apply Hgen; assumption.
@@ -261,6 +281,7 @@ Section ActSound.
   Ltac pops := repeat (rewrite pop_G; cbn [abind]).
   Ltac norm_in H :=
     cbn [has_ty wf_node wf_nodes wf_query wf_pquery vgc single_kind node_kind node_basic vgroup
+         acc_clean acc_clean_ids all_false all_false_ids all_false_q all_false_p accessor
          cpwf scalarb negb andb orb forallb] in H.
   Ltac unpack :=
     repeat match goal with
@@ -269,6 +290,8 @@ Section ActSound.
            | H : pqwf _ = true |- _ => unfold pqwf in H
            | H : wf_node (Node _ _ _) = true |- _ => progress norm_in H
            | H : vgc (Node _ _ _) = true |- _ => progress norm_in H
+           | H : acc_clean (Node _ _ _) = true |- _ => progress norm_in H
+           | H : all_false (Node _ _ _) = true |- _ => progress norm_in H
            | H : cpwf (CP _ _) = true |- _ => progress norm_in H
            | H : _ && _ = true |- _ => apply andb_true_iff in H; destruct H
            | H : true = true |- _ => clear H
@@ -290,10 +313,12 @@ Section ActSound.
   Ltac inv_goal :=
     unpack;
     cbn [has_ty]; unfold nwf, pqwf;
+    rewrite ?wf_nodes_snoc, ?acc_clean_ids_snoc, ?forallb_app;
     cbn [wf_node wf_nodes wf_query wf_pquery vgc single_kind node_kind node_basic vgroup mk_basic set_vgroup set_text
+         acc_clean acc_clean_ids all_false all_false_ids all_false_q all_false_p accessor
          cpwf scalarb negb andb orb forallb];
-    rewrite ?wf_nodes_snoc, ?forallb_app;
-    cbn [wf_node wf_nodes forallb sub_okb andb];
+    rewrite ?wf_nodes_snoc, ?acc_clean_ids_snoc, ?forallb_app;
+    cbn [wf_node wf_nodes acc_clean acc_clean_ids forallb sub_okb andb];
     repeat (first [ close_goal | (apply andb_true_iff; split) ]).
   Ltac fin :=
     repeat first [ rewrite push_G | progress cbn [wpa abind] ];
@@ -369,7 +394,7 @@ Section ActSound.
     destruct an as [|an]. { cbn [sig] in Hs; try discriminate Hs; inversion Hs; subst req out; clear Hs; inv_typed; kill_items; prep; unpack; try (destruct (first_byte_nonempty cps (Hc eq_refl)) as [fb Hfb]); solve [act_tac]. }
     destruct an as [|an]. { cbn [sig] in Hs; try discriminate Hs; inversion Hs; subst req out; clear Hs; inv_typed; kill_items; prep; unpack; try (destruct (first_byte_nonempty cps (Hc eq_refl)) as [fb Hfb]); solve [act_tac]. }
     destruct an as [|an]. { cbn [sig] in Hs; try discriminate Hs; inversion Hs; subst req out; clear Hs; inv_typed; kill_items; prep; unpack; try (destruct (first_byte_nonempty cps (Hc eq_refl)) as [fb Hfb]); solve [act_tac]. }
-    destruct an as [|an]. { cbn [sig] in Hs; try discriminate Hs; inversion Hs; subst req out; clear Hs; inv_typed; kill_items; cbn [has_ty] in *; cbn [Actions.exec_action]; rewrite pop_G; cbn [abind]; rewrite act26_eq; match goal with |- context [two_cur ?q] => destruct (two_cur q) eqn:Et end; [exact I|]; cbn [wpa]; rewrite push_G; exists [IQuery q]; split; [constructor; [cbn [has_ty]; apply rawq_wf; assumption|constructor]|reflexivity]. }
+    destruct an as [|an]. { cbn [sig] in Hs; try discriminate Hs; inversion Hs; subst req out; clear Hs; inv_typed; kill_items; cbn [has_ty] in *; cbn [Actions.exec_action]; rewrite pop_G; cbn [abind]; rewrite act26_eq; match goal with |- context [two_cur ?q] => destruct (two_cur q) eqn:Et end; [exact I|]; cbn [wpa]; rewrite push_G; exists [IQuery q]; split; [constructor; [cbn [has_ty]; repeat match goal with H : _ && _ = true |- _ => apply andb_true_iff in H; destruct H end; apply andb_true_iff; split; [apply rawq_wf; assumption|assumption]|constructor]|reflexivity]. }
     destruct an as [|an]. { cbn [sig] in Hs; try discriminate Hs; inversion Hs; subst req out; clear Hs; inv_typed; kill_items; prep; unpack; try (destruct (first_byte_nonempty cps (Hc eq_refl)) as [fb Hfb]); solve [act_tac]. }
     destruct an as [|an]. { cbn [sig] in Hs; try discriminate Hs; inversion Hs; subst req out; clear Hs; inv_typed; kill_items; cbn [has_ty] in *; cbn [Actions.exec_action]; unfold two_operands, pop_cparam; repeat (rewrite pop_G; cbn [abind]); match goal with |- context [push_compare_eq ?l ?r ?st] => destruct (compare_eq_raw l r st ltac:(assumption) ltac:(assumption)) as (q & E & R1 & R2); rewrite E end; cbn [abind wpa]; rewrite push_G; exists [IQuery q]; split; [constructor; [exact R1|constructor]|reflexivity]. }
     destruct an as [|an]. { cbn [sig] in Hs; try discriminate Hs; inversion Hs; subst req out; clear Hs; inv_typed; kill_items; cbn [has_ty] in *; cbn [Actions.exec_action]; unfold two_operands, pop_cparam; repeat (rewrite pop_G; cbn [abind]); match goal with |- context [push_compare_eq ?l ?r ?st] => destruct (compare_eq_raw l r st ltac:(assumption) ltac:(assumption)) as (q & E & R1 & R2); rewrite E end; unfold pop_query; rewrite push_G, pop_G; cbn [abind wpa]; rewrite push_G; exists [IQuery (QNot q)]; split; [constructor; [exact R2|constructor]|reflexivity]. }
